@@ -24,6 +24,9 @@ TRUSTED = [
     "the plugin decodes only in its main.rs (get_appointment, get_subscription_info) are decoded by the same expression with the type the translator "
     "read from main.rs",
     "handler field checks of teos/src/api/http.rs (empty / wrong size / missing) are hand-modelled in WireApi.v and validated by the correspondence run",
+    "not exercised: an internal-API status message containing '%' (tonic 0.11 does not escape it in the grpc-message header of the internal gRPC hop, "
+    "so '%xx' inside a message is altered before the HTTP layer sees it; the tower's messages are fixed ASCII sentences without it); empty request bodies "
+    "(no Content-Length: warp's 411, C15); JSON numbers with fraction/exponent or beyond 62 bits (outside the model's value type)",
 ]
 
 
